@@ -210,3 +210,21 @@ def ok_helper(x):
 
 def _lit(dim):
     return {1: "conv1d", 2: "conv2d"}[dim]
+
+
+
+# ---- attribute chains below a handler of AttributeError that is there for something else (ChainsResolve, guard "A")
+def bad_guarded_submodule_b(x):
+    # the handler is meant for x without .real; lena.b is a submodule nothing here imports: swallowed, other result
+    try:
+        return x.real + lena.b.value
+    except AttributeError:
+        return None
+
+
+def ok_guarded_plain_attribute(x):
+    # feature probing: missing in every import state alike
+    try:
+        return lena.a.tools.no_such_feature
+    except AttributeError:
+        return None
